@@ -807,3 +807,110 @@ impl Engine for HtEngine {
         ops.iter().filter(|o| o.starts_with("ht insert") || o.starts_with("ht entry")).count() >= 2
     }
 }
+
+/// Engine `hmp`: the hash map instantiated with plain-data keys and values (`u32 -> u32`, no drop
+/// glue: the code paths that `needs_drop` selects differ from those of the drop-logging engine
+/// `hm`). Oracle: a `BTreeMap` run on the same operations; no Lean model (the theorems are
+/// parametric in key and value types).
+pub struct HmPlainEngine;
+
+impl Engine for HmPlainEngine {
+    fn name(&self) -> &'static str {
+        "hmp"
+    }
+    fn gen(&self, rng: &mut Rng, tier: Tier, _idx: usize) -> Vec<String> {
+        let cap = *rng.pick(&[0usize, 1, 2, 3, 8, 13, 16]);
+        let mut ops = vec![format!("hmp new {cap}")];
+        // a small universe so that keys are re-used; multiples of the capacity collide
+        let universe: Vec<u32> = (0..12).map(|_| rng.range(0, 40) as u32).chain([0, 13, 26, 39, 7, 15, 8, 16]).collect();
+        let n = if tier == Tier::Quick { rng.range(10, 80) } else { rng.range(10, 300) };
+        for _ in 0..n {
+            let k = *rng.pick(&universe);
+            match rng.weighted(&[30, 12, 12, 14, 4, 8, 8]) {
+                0 => ops.push(format!("hmp insert {k} {}", rng.range(0, 1000))),
+                1 => ops.push(format!("hmp get {k}")),
+                2 => ops.push(format!("hmp contains {k}")),
+                3 => ops.push(format!("hmp remove {k}")),
+                4 => ops.push("hmp clear".into()),
+                5 => ops.push("hmp len".into()),
+                _ => ops.push("hmp iter".into()),
+            }
+        }
+        ops
+    }
+    fn run_impl(&self, ops: &[String], out: &mut Vec<String>) {
+        let alloc = ScriptAlloc::new();
+        let mut m: Option<CaoHashMap<u32, u32, ScriptAlloc>> = None;
+        for op in ops {
+            let a: Vec<&str> = op.split(' ').skip(1).collect();
+            let line = match (a[0], m.as_mut()) {
+                ("new", _) => {
+                    m = CaoHashMap::with_capacity_in(a[1].parse().unwrap(), alloc.clone()).ok();
+                    "ok".to_string()
+                }
+                ("insert", Some(m)) => match m.insert(a[1].parse().unwrap(), a[2].parse().unwrap()) {
+                    Ok(_) => "ok".into(),
+                    Err(_) => "err:alloc".into(),
+                },
+                ("get", Some(m)) => match m.get(&a[1].parse::<u32>().unwrap()) {
+                    Some(v) => format!("v{v}"),
+                    None => "none".into(),
+                },
+                ("contains", Some(m)) => m.contains(&a[1].parse::<u32>().unwrap()).to_string(),
+                ("remove", Some(m)) => match m.remove(&a[1].parse::<u32>().unwrap()) {
+                    Some(v) => format!("v{v}"),
+                    None => "none".into(),
+                },
+                ("clear", Some(m)) => {
+                    m.clear();
+                    "ok".into()
+                }
+                ("len", Some(m)) => m.len().to_string(),
+                ("iter", Some(m)) => {
+                    let mut v: Vec<(u32, u32)> = m.iter().map(|(k, v)| (*k, *v)).collect();
+                    v.sort();
+                    format!("{v:?}")
+                }
+                _ => "bad-op".into(),
+            };
+            out.push(line);
+        }
+    }
+    fn run_spec(&self, ops: &[String], _impl_out: &[String]) -> Option<Vec<String>> {
+        let mut m = std::collections::BTreeMap::<u32, u32>::new();
+        let mut out = vec![];
+        for op in ops {
+            let a: Vec<&str> = op.split(' ').skip(1).collect();
+            out.push(match a[0] {
+                "new" => {
+                    m.clear();
+                    "ok".to_string()
+                }
+                "insert" => {
+                    m.insert(a[1].parse().unwrap(), a[2].parse().unwrap());
+                    "ok".into()
+                }
+                "get" => m.get(&a[1].parse().unwrap()).map(|v| format!("v{v}")).unwrap_or("none".into()),
+                "contains" => m.contains_key(&a[1].parse().unwrap()).to_string(),
+                "remove" => m.remove(&a[1].parse().unwrap()).map(|v| format!("v{v}")).unwrap_or("none".into()),
+                "clear" => {
+                    m.clear();
+                    "ok".into()
+                }
+                "len" => m.len().to_string(),
+                "iter" => format!("{:?}", m.iter().map(|(k, v)| (*k, *v)).collect::<Vec<_>>()),
+                _ => "bad-op".into(),
+            });
+        }
+        Some(out)
+    }
+    fn model_compared(&self, _op: &str) -> bool {
+        false
+    }
+    fn tags(&self, ops: &[String], _impl_out: &[String]) -> Vec<String> {
+        let mut t: Vec<String> = ops.iter().map(|o| format!("op:{}", o.split(' ').nth(1).unwrap_or(""))).collect();
+        t.sort();
+        t.dedup();
+        t
+    }
+}
